@@ -58,9 +58,24 @@ def gen_plan(rng, cfg, tier):
   if rng.random() < 0.3:
     t2 = []
     for _ in range(rng.randint(1, 3)):
-      t2.append(['advance', rng.choice([0.0, 0.01, 0.5, 3.0])])
+      # (also the long steps R takes: both threads then wake at the same instant, and the
+      # limit change can land inside an acquisition that follows a long quiet period)
+      t2.append(['advance', rng.choice([0.0, 0.01, 0.5, 3.0, 1e6, 1e6, 7.3, 1.0])])
       t2.append(['set', rng.choice([1, 10, 1000]), rng.choice([1.0, 10.0, 1000.0])])
+    if rng.random() < 0.35:
+      # structured history: the burst is used up, a long quiet period follows, and the
+      # limits are changed at the very instant the next acquisitions are made
+      cap2 = rng.choice([1, 2, 5, 10])
+      x = rng.choice([1e6, 1e6, 100.0 / rate, 3600.0])
+      ops = [['drain', 1, False] for _ in range(cap2 + rng.randint(0, 2))] + [['advance', x]] + \
+            [['drain', 1, rng.random() < 0.3] for _ in range(rng.randint(3, 12))]
+      t2 = [['advance', x], ['set', rng.choice([1, 1, 2, 20]), rng.choice([0.5, 1.0, 10.0])]]
+      plan['capacity'] = cap2
+      plan['ops'] = ops
     plan['t2ops'] = t2
+    if rng.random() < 0.6:
+      # schedule bias: the bucket's own bookkeeping lines (read-compute-store of the balance)
+      plan['hot'] = [[r'_tokens|self\.capacity|fill_rate', rng.choice([0.3, 0.6])]]
     # in carbon exactly one thread changes the limits (the reactor thread, at shutdown)
     # while another one acquires: with a second thread present, R only acquires
     plan['ops'] = [op for op in ops if op[0] != 'set']
@@ -80,3 +95,21 @@ def nontrivial(res):
   p = res.get('probes', {})
   return any(k in p for k in ('blocking_wait', 'limit_change', 'rate_limited_write_calls',
                               'rate_limited_create_calls', 'huge_step', 'zero_step'))
+
+
+# ---- crash-point enumeration: the stop (which switches the limits) injected at every line
+# the writer thread executes after the receiver's last operation (world-B runs only)
+from . import c04 as _c04
+ENUM_EVERY = {'thorough': 10, 'quick': 40}
+
+
+def enumeration_base(plan):
+  if 'capacity' in plan:
+    return plan
+  return _c04.enumeration_base(plan)
+
+
+def enumerate_variants(base, bres, rng, tier):
+  if 'capacity' in base:
+    return []
+  return _c04.enumerate_variants(base, bres, rng, tier)
